@@ -426,7 +426,7 @@ func runOnce(c *Case) (*world, bool, string) {
 	if c.Procs > 0 {
 		defer runtime.GOMAXPROCS(runtime.GOMAXPROCS(c.Procs))
 	}
-	timedOut, dump := vkit.Watchdog(60*time.Second, func() {
+	timedOut, deadlock, dump := vkit.Hang(60*time.Second, func() {
 		for _, op := range c.Setup {
 			w.exec(op, false)
 		}
@@ -445,7 +445,10 @@ func runOnce(c *Case) (*world, bool, string) {
 		start.Done()
 		done.Wait()
 		w.bus.Wait()
-	})
+	}, "github.com/jilio/ebu", "verif/c03")
+	if deadlock {
+		dump = "DEADLOCK\n" + dump
+	}
 	return w, timedOut, dump
 }
 
@@ -455,6 +458,15 @@ func Run(c *Case) *vkit.Outcome {
 	o := &vkit.Outcome{}
 	before, _ := raceLogSize()
 	w, timedOut, dump := runOnce(c)
+	if timedOut && strings.HasPrefix(dump, "DEADLOCK\n") {
+		// no need to reproduce: 65 s into the run every goroutine of the
+		// program waits for another one and none can move
+		if len(dump) > 8000 {
+			dump = dump[:8000]
+		}
+		o.Failf("", "the program did not finish: after more than a minute every goroutine of it is blocked waiting for another goroutine (none runnable, sleeping or in I/O), at least one of them inside the bus: deadlock / lost wake-up. Goroutines:\n%s", dump)
+		return o
+	}
 	if timedOut {
 		_, again, dump2 := runOnce(c)
 		if again {
